@@ -258,10 +258,71 @@ def arg_positions(ctx: Ctx):
     ctx.require_min("named positional arguments checked", 150)
 
 
+def partition_sets_table(ctx: Ctx, cs):
+    """`partition_sets` evaluated (DECTAB) on models of the cube set: 1..3 cubes x 1..3 partitions each x every truth value
+    of the boolean properties it consults.  Set k must hold the k-th partition of every cube, for EVERY k."""
+    from ..dectab import DTop, ModelInterp, Raises
+
+    m = ctx.repo.lookup(cs, "partition_sets")
+    where = "cube.py::CubeSet.partition_sets [table]"
+    body = SUMMARIZER.summarize(m.node)
+    flags = sorted({u(n) for n in ast.walk(body) if isinstance(n, ast.Attribute) and isinstance(n.value, ast.Name) and n.value.id == "self" and n.attr != "_cubes"})
+    if len(flags) > 3:
+        ctx.undecided("cubeset.table", where, f"consults {flags}", "zip of the cubes' partitions")
+        return
+
+    class _I(ModelInterp):
+        def _call(self, c, it):
+            if isinstance(c.func, ast.Name) and c.func.id == "zip":
+                args = []
+                for a in c.args:
+                    if isinstance(a, ast.Starred):
+                        args += [tuple(x) for x in self.ev(a.value)]
+                    else:
+                        args.append(tuple(self.ev(a)))
+                return [tuple(t) for t in zip(*args)]
+            return super()._call(c, it)
+
+    bad, n = [], 0
+    try:
+        for n_cubes in (1, 2, 3):
+            for n_parts in (1, 2, 3):
+                cubes = [{".partitions": tuple(f"c{i}p{k}" for k in range(n_parts))} for i in range(n_cubes)]
+                want = tuple(tuple(f"c{i}p{k}" for i in range(n_cubes)) for k in range(n_parts))
+                for mask in range(2 ** len(flags)):
+                    vals = {f: bool(mask >> j & 1) for j, f in enumerate(flags)}
+
+                    def atoms(x, cubes=cubes, vals=vals):
+                        t = u(x)
+                        if t == "self._cubes":
+                            return cubes
+                        if t in vals:
+                            return vals[t]
+                        raise KeyError
+
+                    n += 1
+                    try:
+                        got = _I(atoms).ev(body)
+                    except Raises as r:
+                        bad.append(f"{n_cubes} cubes x {n_parts} partitions {vals}: raises {r.etype}")
+                        continue
+                    got = tuple(tuple(x) for x in got)
+                    if got != want:
+                        bad.append(f"{n_cubes} cubes x {n_parts} partitions {vals or ''}: {len(got)} set(s) {got[:2]}, specified {len(want)}")
+    except DTop as t:
+        ctx.undecided("cubeset.table", where, "DECTAB: " + str(t), "zip of the cubes' partitions")
+        return
+    ctx.count("partition-set models", n)
+    ctx.ob("cubeset.table", where, bad[:3] or f"{n} (cubes, partitions, flags) models", "set k = (k-th partition of cube 0, of cube 1, ...) for every k", not bad,
+           "a multi-cube set of 3-D cubes loses the tables of every first-dimension element but the first")
+    ctx.require_min("partition-set models", 9)
+
+
 def cubeset(ctx: Ctx):
     cs = ctx.repo.cls("cube.py", "CubeSet")
     e = expand(ctx.repo, cs, "partition_sets", stop=lambda m: True)
     ctx.check_expr("cubeset", "cube.py::CubeSet.partition_sets", e, "tuple(zip(*(cube.partitions for cube in self._cubes)))", "partition set k lines up the k-th partition of every cube")
+    partition_sets_table(ctx, cs)
     m = ctx.repo.lookup(cs, "_cubes")
     ctor = None
     for n in ast.walk(m.node):
